@@ -369,7 +369,23 @@ func runC14(w *World, r *Report, tier string) {
 				a := origin(c.Common().Args[len(c.Common().Args)-1])
 				ex, isEx := a.(*ssa.Extract)
 				if !isEx || ex.Tuple != ssa.Value(mc) || ex.Index != 0 {
-					okW = false
+					// the bytes may travel through a variable assigned in one function literal and read in another:
+					// what is written, on every path that reaches the write
+					nP, okP := 0, true
+					isThis := func(x ssa.Instruction) bool { return x == in }
+					err := walkPaths(entryLoc(plain), isThis, nil, 20000, func(path []ssa.Instruction, end pathEnd) {
+						if !isThis(path[len(path)-1]) {
+							return
+						}
+						nP++
+						ra := resolveOn(c.Common().Args[len(c.Common().Args)-1], len(path)-1, path)
+						if ex2, ok := ra.(*ssa.Extract); !ok || ex2.Tuple != ssa.Value(mc) || ex2.Index != 0 {
+							okP = false
+						}
+					})
+					if err != nil || nP == 0 || !okP {
+						okW = false
+					}
 				}
 				if !c.Common().IsInvoke() || origin(c.Common().Value) != ssa.Value(plain.Params[0]) {
 					okW = false
@@ -446,7 +462,7 @@ func runC14(w *World, r *Report, tier string) {
 					}
 					ex := c.(*ssa.Extract)
 					ta := ex.Tuple.(*ssa.TypeAssert)
-					return rvAny(ta.X) == pkt || ta.X == pkt
+					return rvAny(ta.X) == pkt || ta.X == pkt || (curEdgeIdx >= 0 && resolveOn(ta.X, curEdgeIdx, path) == pkt)
 				})
 			}
 			isSucc, isFail := typed("stanza.SASLSuccess"), typed("stanza.SASLFailure")
